@@ -122,6 +122,27 @@ func cmdOut(dir string, env []string, name string, args ...string) (string, erro
 	return buf.String(), err
 }
 
+// goDirective: the language version of the library's go.mod (it decides loop
+// variable semantics and which language features compile), but never below
+// 1.22, which the simulator's own packages need.
+func goDirective(root string) string {
+	v := "1.22"
+	data, err := os.ReadFile(filepath.Join(root, "go.mod"))
+	if err != nil {
+		return v
+	}
+	for _, l := range strings.Split(string(data), "\n") {
+		f := strings.Fields(l)
+		if len(f) == 2 && f[0] == "go" {
+			var maj, min int
+			if n, _ := fmt.Sscanf(f[1], "%d.%d", &maj, &min); n == 2 && (maj > 1 || min >= 22) {
+				v = f[1]
+			}
+		}
+	}
+	return v
+}
+
 // doBuild assembles the scratch module and builds the worker(s).
 func doBuild(tag string, gobin string, race, plain bool) *build {
 	t0 := time.Now()
@@ -154,7 +175,7 @@ func doBuild(tag string, gobin string, race, plain bool) *build {
 	if err := copyTree(filepath.Join(verifHome, "sim"), filepath.Join(dir, "verifsim")); err != nil {
 		die2("copy sim: %v", err)
 	}
-	gomod := "module " + modPath + "\n\ngo 1.22\n"
+	gomod := "module " + modPath + "\n\ngo " + goDirective(repoRoot) + "\n"
 	os.WriteFile(filepath.Join(dir, "go.mod"), []byte(gomod), 0o644)
 	var pts bytes.Buffer
 	fmt.Fprintf(&pts, "package main\n\nconst numPoints = %d\n\nconst srcHash = %q\n\n// libSpawns: the library starts goroutines or uses channels; calm evaluations\n// then run inside a trivial simulation instead of a plain call.\nconst libSpawns = %v\n\nvar pointSites = []string{\n", res.Points, res.SrcHash, res.GoStmts > 0 || res.ChanFiles > 0)
